@@ -211,7 +211,13 @@ class System:
         if k in ('go', 'quit'):
             return len(ref.nodes[op[1]].external) < CAP and not (k == 'quit' and ref.nodes[op[1]].final)
         if k == 'bind':
-            return len(ref.nodes[op[1]].targets) < (3 if op[1] == 'A' else 2) and op[2] not in ref.nodes[op[1]].targets
+            # the same callable / interpreter may be bound twice to A (two bindings: two deliveries, and detaching
+            # one of them must remove that one, not its twin); not combined with the detaching callable, whose
+            # reference bookkeeping identifies listeners by target
+            tg = ref.nodes[op[1]].targets
+            return len(tg) < (3 if op[1] == 'A' else 2) and (
+                (op[2] not in tg and not (op[2][0] == 'g' and len(set(tg)) < len(tg)))
+                or (op[1] == 'A' and op[2] in (('f', 0), ('i', 'B')) and tg.count(op[2]) < 2 and ('g', 0) not in tg))
         if k == 'detach':
             return len(ref.nodes[op[1]].targets) > op[2]
         if k == 'clock':
@@ -368,6 +374,11 @@ def run(tier, seed):
     depth = DEPTH[tier]
     kinds = ['two', 'three'] if tier == 'thorough' else ['two', 'three']
     roots = [((k, Ref(SYSTEMS[k]).canon()), (k, ())) for k in kinds]
+    # start from non-initial states too: A already holds the same target twice with another one in between (what
+    # matters then - detach one twin, send, compare the order - lies within the depth from here)
+    for twin in (('f', 0), ('i', 'B')):
+        pre = (('bind', 'A', twin), ('bind', 'A', ('f', 1)), ('bind', 'A', twin))
+        roots.append((('two', System('two').build(pre)['ref'].canon()), ('two', pre)))
     agg = harness.level_bfs(expand, roots, depth if tier == 'thorough' else depth)
     import re
     viols = []
